@@ -12,6 +12,9 @@ structure Box where
   nx : Nat
   ny : Nat
   nz : Nat
+  /-- how an out-of-range root-box index is brought into range: `false` = `(i+N)%N` / `i%N` (particle.c:191-198,
+      tree.c:86-92 as pinned), `true` = clamp to `[0,N-1]` (fixes/F18.diff); rv/c15.py reads the rule off the source -/
+  clamp : Bool := false
 
 def Box.bx (b : Box) : Float := b.rs * Float.ofNat b.nx
 def Box.bY (b : Box) : Float := b.rs * Float.ofNat b.ny
@@ -21,17 +24,19 @@ def Box.bz (b : Box) : Float := b.rs * Float.ofNat b.nz
 def cellIdx (x bs rs : Float) : Int := (Float.floor ((x + bs / 2.0) / rs)).toInt64.toInt
 
 /-- `reb_get_rootbox_for_particle` -/
+def clampIdx (i : Int) (n : Nat) : Int := if i < 0 then 0 else if i ≥ n then (n : Int) - 1 else i
+
 def rootIndex (b : Box) (p : Pt Float) : Int :=
-  let i := (cellIdx p.x b.bx b.rs + b.nx).tmod b.nx
-  let j := (cellIdx p.y b.bY b.rs + b.ny).tmod b.ny
-  let k := (cellIdx p.z b.bz b.rs + b.nz).tmod b.nz
+  let i := if b.clamp then clampIdx (cellIdx p.x b.bx b.rs) b.nx else (cellIdx p.x b.bx b.rs + b.nx).tmod b.nx
+  let j := if b.clamp then clampIdx (cellIdx p.y b.bY b.rs) b.ny else (cellIdx p.y b.bY b.rs + b.ny).tmod b.ny
+  let k := if b.clamp then clampIdx (cellIdx p.z b.bz b.rs) b.nz else (cellIdx p.z b.bz b.rs + b.nz).tmod b.nz
   (k * b.ny + j) * b.nx + i
 
 /-- geometry of a new root node (tree.c:86-92) -/
 def rootCell (b : Box) (p : Pt Float) : Cell Float :=
-  let i := (cellIdx p.x b.bx b.rs).tmod b.nx
-  let j := (cellIdx p.y b.bY b.rs).tmod b.ny
-  let k := (cellIdx p.z b.bz b.rs).tmod b.nz
+  let i := if b.clamp then clampIdx (cellIdx p.x b.bx b.rs) b.nx else (cellIdx p.x b.bx b.rs).tmod b.nx
+  let j := if b.clamp then clampIdx (cellIdx p.y b.bY b.rs) b.ny else (cellIdx p.y b.bY b.rs).tmod b.ny
+  let k := if b.clamp then clampIdx (cellIdx p.z b.bz b.rs) b.nz else (cellIdx p.z b.bz b.rs).tmod b.nz
   { w := b.rs
     x := (-b.bx) / 2.0 + b.rs * (0.5 + Float.ofInt i)
     y := (-b.bY) / 2.0 + b.rs * (0.5 + Float.ofInt j)
@@ -92,10 +97,10 @@ def visitStr : Visit Float → String
 
 def step (toks : List String) : String :=
   match toks with
-  | "tree" :: rs :: nx :: ny :: nz :: g :: fuel :: n :: rest =>
+  | "tree" :: mode :: rs :: nx :: ny :: nz :: g :: fuel :: n :: rest =>
     match nx.toNat?, ny.toNat?, nz.toNat?, g.toNat?, fuel.toNat?, n.toNat? with
     | some nx, some ny, some nz, some g, some fuel, some n =>
-      let b : Box := ⟨fl rs, nx, ny, nz⟩
+      let b : Box := ⟨fl rs, nx, ny, nz, mode == "clamp"⟩
       let ps := (pts4 rest).toArray
       if ps.size ≠ n then "bad-count" else
       match buildForest b ps fuel with
@@ -108,7 +113,7 @@ def step (toks : List String) : String :=
   | "walk" :: th :: gx :: gy :: gz :: pt :: rs :: nx :: ny :: nz :: fuel :: n :: rest =>
     match pt.toNat?, nx.toNat?, ny.toNat?, nz.toNat?, fuel.toNat?, n.toNat? with
     | some pt, some nx, some ny, some nz, some fuel, some n =>
-      let b : Box := ⟨fl rs, nx, ny, nz⟩
+      let b : Box := ⟨fl rs, nx, ny, nz, false⟩
       let ps := (pts4 rest).toArray
       if ps.size ≠ n then "bad-count" else
       match buildForest b ps fuel with
